@@ -418,6 +418,27 @@ func init() {
 			return &sym{e: n, k: symBV, w: 16, gk: types.Int16}
 		},
 		ndPath + ".Itoa":    ndItoa,
+		ndPath + ".IntBits": func(fr *frame, args []value) value {
+			bits := args[1].(int)
+			n := fr.i.x.freshVar(args[0].(string), fmt.Sprintf("(_ BitVec %d)", bits))
+			return &sym{e: fmt.Sprintf("((_ sign_extend %d) %s)", 64-bits, n), k: symBV, w: 64, gk: types.Int64}
+		},
+		ndPath + ".ParseInt": func(fr *frame, args []value) value {
+			switch t := args[0].(type) {
+			case numstr:
+				o := t.n
+				if o.w < 64 {
+					o = symConv(types.Int64, o).(*sym)
+				}
+				return tuple{o, true}
+			case string:
+				n, err := strconv.ParseInt(t, 10, 64)
+				return tuple{n, err == nil}
+			case fpstr:
+				panic(unsupported("nd.ParseInt of the text of an inexact symbolic double"))
+			}
+			panic(unsupported("nd.ParseInt of symbolic text"))
+		},
 		ndPath + ".Param": func(fr *frame, args []value) value {
 			if v, ok := fr.i.params[args[0].(string)]; ok {
 				return v
@@ -653,6 +674,35 @@ func fmtValue(fr *frame, v value) value {
 		return fmtValue(fr, x.v)
 	case *sym:
 		return "<sym>"
+	case []value:
+		// %v of a []byte: "[b0 b1 ...]" in decimal (this is how core renders B-typed key values)
+		allBytes := len(x) > 0
+		for _, e := range x {
+			switch b := e.(type) {
+			case uint8:
+			case *sym:
+				if b.w != 8 {
+					allBytes = false
+				}
+			default:
+				allBytes = false
+			}
+		}
+		if allBytes && !allConcrete(v) {
+			out := sstr{uint8('[')}
+			for k, e := range x {
+				if k > 0 {
+					out = append(out, uint8(' '))
+				}
+				switch b := e.(type) {
+				case uint8:
+					out = append(out, toSstr(strconv.Itoa(int(b)))...)
+				case *sym:
+					out = append(out, materialise(numstr{&sym{e: "((_ zero_extend 8) " + b.e + ")", k: symBV, w: 16, gk: types.Uint16}})...)
+				}
+			}
+			return append(out, uint8(']'))
+		}
 	}
 	return toString(v)
 }
@@ -682,11 +732,20 @@ func sprintf(fr *frame, format string, a []value) (value, value) {
 			continue
 		}
 		p++
-		verb := format[p]
-		if verb == '#' && p+1 < len(format) {
+		// flags, width and precision
+		specStart := p
+		for p < len(format) && strings.IndexByte("#0-+ ", format[p]) >= 0 {
 			p++
-			verb = format[p]
 		}
+		for p < len(format) && (format[p] >= '0' && format[p] <= '9' || format[p] == '.') {
+			p++
+		}
+		if p >= len(format) {
+			out = append(out, toSstr("%!(NOVERB)")...)
+			break
+		}
+		spec := format[specStart:p]
+		verb := format[p]
 		if verb == '%' {
 			out = append(out, byte('%'))
 			continue
@@ -700,6 +759,10 @@ func sprintf(fr *frame, format string, a []value) (value, value) {
 		if verb == 'w' {
 			wrapped = arg
 		}
+		if r, ok := fmtSpec(spec, verb, arg); ok {
+			out = append(out, toSstr(r)...)
+			continue
+		}
 		s := fmtValue(fr, arg)
 		if verb == 'q' {
 			out = append(out, byte('"'))
@@ -710,6 +773,36 @@ func sprintf(fr *frame, format string, a []value) (value, value) {
 		}
 	}
 	return normStr(out), wrapped
+}
+
+// fmtSpec handles verbs with flags/width on scalars: concrete values go through the real fmt, a symbolic
+// integer under %0Nx (N = its number of nibbles) becomes its N hex digits, under %d its decimal text.
+func fmtSpec(spec string, verb byte, arg value) (value, bool) {
+	if ifc, ok := arg.(iface); ok {
+		arg = ifc.v
+	}
+	if sy, ok := arg.(*sym); ok && sy.k == symBV {
+		switch {
+		case verb == 'x' && spec == fmt.Sprintf("0%d", sy.w/4):
+			out := make(sstr, 0, sy.w/4)
+			for k := sy.w/4 - 1; k >= 0; k-- {
+				nib := fmt.Sprintf("((_ zero_extend 4) ((_ extract %d %d) %s))", 4*k+3, 4*k, sy.e)
+				out = append(out, &sym{e: fmt.Sprintf("(ite (bvult %s #x0a) (bvadd %s #x30) (bvadd %s #x57))", nib, nib, nib), k: symBV, w: 8, gk: types.Uint8})
+			}
+			return out, true
+		case verb == 'd' && spec == "":
+			return numstr{sy}, true
+		}
+		panic(unsupported(fmt.Sprintf("formatting a symbolic integer with %%%s%c", spec, verb)))
+	}
+	if spec == "" {
+		return nil, false
+	}
+	switch x := arg.(type) {
+	case int, int8, int16, int32, int64, uint, uint8, uint16, uint32, uint64, float64, string, bool:
+		return fmt.Sprintf("%"+spec+string(verb), x), true
+	}
+	return nil, false
 }
 
 func extSprintf(fr *frame, args []value) value {
